@@ -24,7 +24,20 @@ TRANSLATE = {
     "scad": [("Scad", "add_Scad"), ("Scad", "sub_Scad"), ("Scad", "external_circle_chamfer"),
              ("Scad", "external_cylinder_chamfer"), ("Scad", "polar_array")],
 }
-OUTNAME = {"pipe": "SrcPipe", "scad": "SrcScad"}
+TRANSLATE["thread_parts"] = [(None, "threaded_rod"), (None, "tap"), (None, "hex_bolt"), (None, "hex_nut")]
+SOURCE = {"pipe": "pipe", "scad": "scad", "thread_parts": "metric_thread"}
+OUTNAME = {"pipe": "SrcPipe", "scad": "SrcScad", "thread_parts": "SrcThreadParts"}
+# functions the part builders call that stay hand-modelled: their model is named directly
+# (each is tied to the crate separately: the table by gen_thread.py and the C16 lookup run, the mesh
+# builders by the C04/C16 correspondence)
+EXTERNS = {
+    (None, "m_table_lookup"): {"lean": "Thread.lookup", "params": [("m", "i32", "val")], "ret": "ThreadInfo", "selfmode": None, "partial": True},
+    (None, "threaded_cylinder"): {"lean": "Thread.threadedCylinder", "params": [("d_min", "f64", "val"), ("d_maj", "f64", "val"), ("pitch", "f64", "val"), ("length", "f64", "val"), ("segments", "u64", "val"), ("li", "f64", "val"), ("lo", "f64", "val"), ("left", "bool", "val"), ("center", "bool", "val")], "ret": "Scad", "selfmode": None, "partial": True},
+    (None, "d_min_from_d_maj_pitch"): {"lean": "Src.metric_thread.d_min_from_d_maj_pitch", "params": [("d_maj", "f64", "val"), ("pitch", "f64", "val")], "ret": "f64", "selfmode": None},
+    ("Polyhedron", "linear_extrude"): {"lean": "Dim3.Polyhedron.linearExtrude", "params": [("points", "Pt2s", "ref"), ("height", "f64", "val")], "ret": "Polyhedron", "selfmode": None, "partial": True},
+    ("Polyhedron", "into_scad"): {"lean": "Thread.polyScad", "params": [("self", "Polyhedron", "val")], "ret": "Scad", "selfmode": "val"},
+    ("Scad", "external_cylinder_chamfer"): {"lean": "Src.Scad.external_cylinder_chamfer", "params": [("size", "f64", "val"), ("oversize", "f64", "val"), ("radius", "f64", "val"), ("height", "f64", "val"), ("segments", "u64", "val"), ("center", "bool", "val")], "ret": "Scad", "selfmode": None},
+}
 
 
 def generate_file(repo, only):
@@ -39,13 +52,18 @@ def generate_file(repo, only):
     ctx.op_fields = {v: [f for f, _ in fs] for v, fs in scad_items["structs"]["enum ScadOp"]["variants"]}
     # free functions of dim2 that the builders call (chamfer): signatures only
     d2 = parse_file(open(f"{repo}/scad_tree/src/dim2.rs").read())
+    d2_partial = geomsrc.partial_set({fn["name"]: fn for fn in d2["fns"]}, geomsrc.TRANSLATE["dim2"])
     for fn in d2["fns"]:
         if fn["name"] in geomsrc.TRANSLATE["dim2"]:
             params = [(pn, G.norm_type(t, None), m) for pn, t, m in fn["params"]]
             ctx.sigs[(None, fn["name"])] = {"lean": f"Src.dim2.{G.lname(fn['name'])}", "params": params,
                                             "ret": G.norm_type(fn["ret"], None), "selfmode": None,
-                                            "partial": geomsrc.has_assert(fn.get("body", []))}
-    d = scad_items if only == "scad" else parse_file(open(f"{repo}/scad_tree/src/{only}.rs").read())
+                                            "partial": fn["name"] in d2_partial}
+    d = scad_items if only == "scad" else parse_file(open(f"{repo}/scad_tree/src/{SOURCE[only]}.rs").read())
+    if only == "thread_parts":
+        ctx.sigs.update(EXTERNS)
+        ctx.ops[("-", "Scad", "Scad")] = ("Src.Scad.sub_Scad", "Scad")
+        ctx.ops[("+", "Scad", "Scad")] = ("Src.Scad.add_Scad", "Scad")
     wanted = TRANSLATE[only]
     # collect the impl functions of this file, register signatures and operators
     found = {}
@@ -61,6 +79,8 @@ def generate_file(repo, only):
             if tname in ("Add", "Sub"):
                 nm = f"{nm}_{ty}"
             found[(ty, nm)] = (fn, tname)
+    for fn in d["fns"]:
+        found[(None, fn["name"])] = (fn, None)
     errors, skipped = [], []
     for key in wanted:
         if key not in found:
@@ -69,26 +89,41 @@ def generate_file(repo, only):
         raise SystemExit(f"gen_src_{only}: " + "; ".join(errors))
     for key, (fn, tname) in found.items():
         if key not in wanted:
-            skipped.append(f"{only}.rs {key[0]}::{key[1]}")
-    for fn in d["fns"]:
-        skipped.append(f"{only}.rs {fn['name']}")
+            skipped.append(f"{SOURCE[only]}.rs {(key[0] + '::') if key[0] else ''}{key[1]}")
+    # partial (asserting) functions among the wanted ones: own assert!s or calls of partial functions
+    def is_partial(fn, known):
+        if "error" in fn:
+            return False
+        if geomsrc.has_assert(fn["body"]):
+            return True
+        names = geomsrc.calls(fn["body"], set())
+        return any((k[1] in names) for k, sg in list(ctx.sigs.items()) if sg.get("partial")) or bool(names & known)
+    partial_names = set()
+    changed = True
+    while changed:
+        changed = False
+        for (ty, nm) in wanted:
+            if nm not in partial_names and is_partial(found[(ty, nm)][0], partial_names):
+                partial_names.add(nm); changed = True
     for (ty, nm) in wanted:
         fn, tname = found[(ty, nm)]
         params = [(pn, G.norm_type(t, ty), m) for pn, t, m in fn["params"]]
-        ret = G.norm_type(fn["ret"], ty).replace("@OUT", ty)
-        partial = "error" not in fn and geomsrc.has_assert(fn["body"])
-        sig = {"lean": f"Src.{ty}.{G.lname(nm)}", "params": params, "ret": ret, "selfmode": None, "partial": partial}
+        ret = G.norm_type(fn["ret"], ty).replace("@OUT", ty or "")
+        partial = nm in partial_names
+        lean_name = f"Src.{ty}.{G.lname(nm)}" if ty else f"Src.{SOURCE[only]}.{G.lname(nm)}"
+        sig = {"lean": lean_name, "params": params, "ret": ret, "selfmode": None, "partial": partial}
         fn["_sig"] = sig
         if tname in ("Add", "Sub"):
             ctx.ops[({"Add": "+", "Sub": "-"}[tname], ty, ty)] = (sig["lean"], ret)
         else:
             ctx.sigs[(ty, fn["name"])] = sig
     out = [f"/- GENERATED by translator/gen_src_{only}.py (treesrc.py) from scad_tree/src/{only}.rs — do not edit. -/",
-           "import ScadVerif.Gen.MathSrc", "import ScadVerif.Gen.SrcDim2", "import ScadVerif.Model.Scad",
+           "import ScadVerif.Gen.MathSrc", "import ScadVerif.Gen.SrcDim2", "import ScadVerif.Model.Scad"] + (
+           ["import ScadVerif.Gen.SrcScad", "import ScadVerif.Gen.SrcMetricThread", "import ScadVerif.Model.Thread"] if only == "thread_parts" else []) + [
            "set_option linter.unusedVariables false",
            "namespace ScadVerif",
            "variable {α : Type} [Add α] [Sub α] [Mul α] [Div α] [Neg α] [OfNat α 0] [OfNat α 1]",
-           "  [OfNatCast α] [Trig α] [HasSqrt α] [HasAbs α] [Cmp α]", ""]
+           "  [OfNatCast α] [Trig α] [HasSqrt α] [HasAbs α] [Cmp α]" + (" [HasTrunc α]" if only == "thread_parts" else ""), ""]
     for (ty, nm) in wanted:
         fn, tname = found[(ty, nm)]
         sig = fn["_sig"]
@@ -110,7 +145,7 @@ def generate_file(repo, only):
             errors.append(f"{only}.rs: {ty}::{nm}: not translatable ({ex})")
     if errors:
         raise SystemExit(f"gen_src_{only}: " + "; ".join(errors))
-    out.append(f"def Src.{only}.translated : List String := [" + ", ".join(f'"Src.{ty}.{nm}"' for ty, nm in wanted) + "]")
+    out.append(f"def Src.{only}.translated : List String := [" + ", ".join(f'"{found[k][0]["_sig"]["lean"]}"' for k in wanted) + "]")
     out.append(f"def Src.{only}.skipped : List String := [" + ", ".join(f'"{x}"' for x in skipped) + "]")
     out.append("\nend ScadVerif")
     return {OUTNAME[only] + ".lean": "\n".join(out) + "\n"}
